@@ -93,6 +93,17 @@ prop("C15", "packet identifiers non-zero and unique among outstanding requests",
      assumptions=["caller-chosen identifiers are distinct from each other and outside the allocator's upcoming window (caller's responsibility)",
                   "known finding D12 (re-use at allocation distance >= 65535) is excluded by construction and reported as KNOWN-FINDING"])
 
+prop("C07", "a request completes only on its own acknowledgement", "exploration",
+     "rapid-generated cases: 1..8 concurrent callers (Publish q1/q2, Subscribe with 1..4 filters and generated SUBACK code "
+     "vectors, Unsubscribe) blocked against a peer that first collects all requests and then plays a generated script: a "
+     "permutation of the real acks (PUBREC, later PUBCOMP for q2) interleaved with foreign items (unused ids of every ack kind, "
+     "right id / wrong kind, duplicates of acks already sent, unsolicited CONNACK / PINGRESP), each foreign item followed by a "
+     "sync marker; at most one wrong-length SUBACK, sent last. Oracle on the global event log: return(r) after sent(own final "
+     "ack of r); PUBREL after PUBREC; nobody returns while its ack is unsent; results/codes as sent; ErrInvalidSubAck on a count "
+     "mismatch. Non-trivial = >= 2 requests outstanding and >= 1 foreign item; distinct = FNV-64 of the case JSON.",
+     [dict(tests="^TestVerifC07_AckRouting$", checks_quick=2500, checks_thorough=25000, shards=12),
+      dict(tests="^TestVerifC07_AckRouting$", race=True, checks_quick=300, checks_thorough=3000, shards=4)])
+
 # ---------------------------------------------------------------------------------------------
 # texts for MANIFEST.json (tools/gen_manifest.py)
 
@@ -146,3 +157,10 @@ mtext("C15", "pure allocator + E5 scripted peer withholding acks",
       "complete 65535-allocation cycles per run. Concurrency is sampled, not enumerated.",
       "ids observed on the wire by the peer are the ids the client registered; D12 listed as known finding",
       "DESIGN.md section 4 / C15")
+
+mtext("C07", "E5 scripted peer with ack script",
+      "rapid property test (generated ack permutations and foreign acknowledgements), oracle = ordering invariant over one global event log",
+      "Sampling of request mixes, answer orders and injected foreign acknowledgements; each case checks return-after-own-ack on a single "
+      "timeline whose sequence numbers are taken before the ack bytes become readable, so the comparison cannot false-alarm.",
+      "sync marker relies on the reader processing packets strictly in order",
+      "DESIGN.md section 4 / C07")
